@@ -1,2 +1,89 @@
-(* C24 — placeholder while the harness is brought up; replaced below. *)
-From Mv Require Import Model.Mux.
+(* C24 — Conforming multiplexers never tear each other down.
+   Property theorems only; proofs are in Proof/Mux*.v.
+
+   Model: Model/Mux.v — two endpoints, two FIFO wires, the public API split
+   into the atomic steps of the Go code, the reader loop transcribed check for
+   check ([deliver]); [run fx sched st] executes a schedule (disabled actions
+   are skipped) and stops with [ProtocolError s e] as soon as side s's reader
+   rejects a frame.  [fx] says which of the two repairs the code carries. *)
+From Coq Require Import List NArith Bool.
+From Coq Require Import Strings.Byte.
+From Mv Require Import Model.Mux Proof.MuxInv Proof.Mux.
+Import ListNotations.
+Local Open Scope N_scope.
+
+(* ---- the unchanged code violates the property, in two ways ---- *)
+
+Definition cfg_default : config := {| cW := 65535; cBacklog := 10 |}.
+
+(* open, accept, Write("x"), Read(nil): the zero-length read posts a zero
+   window increment, the peer's reader rejects it *)
+Definition witness_zero_read : list action :=
+  [AOpenAlloc SA; AOpenSend SA 1; ADeliver SB; AAcceptPop SB; AAcceptSend SB 1; ADeliver SA;
+   AOpenReturn SA 1;                                              (* OpenStream / AcceptStream *)
+   AWrite SA 1 [x78]; AWChunk SA 1; AWEnd SA 1; ADeliver SB;       (* Write("x") *)
+   ARead SB 1 0; ARConsume SB 1; ARPost SB 1;                      (* Read(nil) *)
+   AFlushInc SB 1; ADeliver SA].
+
+Theorem c24_refuted_unfixed :
+  exists sched, run unfixed sched (init cfg_default cfg_default) = ProtocolError SA EZeroIncr.
+Proof. exists witness_zero_read. vm_compute. reflexivity. Qed.
+
+(* ... also with the open-order repair alone *)
+Theorem c24_refuted_zero_incr :
+  exists sched,
+    run {| fix_zero_incr := false; fix_open_order := true |} sched (init cfg_default cfg_default)
+    = ProtocolError SA EZeroIncr.
+Proof. exists witness_zero_read. vm_compute. reflexivity. Qed.
+
+(* two concurrent OpenStream calls: identifiers allocated in one order, open
+   frames enqueued in the other; the peer's reader rejects the second *)
+Definition witness_open_order : list action :=
+  [AOpenAlloc SA; AOpenAlloc SA; AOpenSend SA 3; AOpenSend SA 1; ADeliver SB; ADeliver SB].
+
+Theorem c24_refuted_open_order :
+  exists sched,
+    run {| fix_zero_incr := true; fix_open_order := false |} sched (init cfg_default cfg_default)
+    = ProtocolError SB EOpenNotMonotone.
+Proof. exists witness_open_order. vm_compute. reflexivity. Qed.
+
+(* ---- with both repairs the property holds ---- *)
+
+(* Full statement: for EVERY pair of configurations (receive windows that fit
+   the wire format, any accept backlog) and EVERY schedule of API steps,
+   reader steps, flushes, heartbeats, multiplexer closes and carrier failures
+   on both sides, with any number of streams, no reader ever reports a
+   protocol violation. *)
+Theorem c24_no_protocol_error :
+  forall (ca cb : config) (sched : list action) (s : side) (e : perr),
+    cW ca <= maxU64 -> cW cb <= maxU64 ->
+    run all_fixed sched (init ca cb) <> ProtocolError s e.
+Proof. exact mux_no_protocol_error. Qed.
+
+(* The invariant I_mux behind it (window conservation per stream and
+   direction, positive increments, non-empty bounded data blocks, identifier
+   parity and monotonicity, nothing after a close, at most one accept and only
+   for identifiers the peer opened, ...) holds in every reachable state. *)
+Theorem c24_invariant :
+  forall (ca cb : config) (sched : list action) (st : state),
+    cW ca <= maxU64 -> cW cb <= maxU64 ->
+    run all_fixed sched (init ca cb) = Running st -> Inv st.
+Proof. exact mux_reachable_inv. Qed.
+
+(* Non-vacuity: a schedule with both repairs that opens a stream, moves data,
+   performs a zero-length read, half-closes and closes, and is still running. *)
+Example c24_nontrivial :
+  exists st,
+    run all_fixed
+        (witness_zero_read ++
+         [ARead SB 1 4; ARConsume SB 1; ARPost SB 1; AFlushInc SB 1; ADeliver SA;
+          ACloseWrite SA 1; ACWPost SA 1; AFlushCW SA 1; ADeliver SB;
+          AClose SB 1; ACTakeW SB 1; ACTakeR SB 1; ACPost SB 1; AFlushClose SB 1; ADeliver SA])
+        (init cfg_default cfg_default) = Running st.
+Proof. eexists. vm_compute. reflexivity. Qed.
+
+Print Assumptions c24_refuted_unfixed.
+Print Assumptions c24_refuted_zero_incr.
+Print Assumptions c24_refuted_open_order.
+Print Assumptions c24_no_protocol_error.
+Print Assumptions c24_invariant.
